@@ -29,6 +29,7 @@
 EXTENDS Naturals, FiniteSets, Sequences, TLC
 LOCAL INSTANCE SequencesExt
 CONSTANTS Ids, LgKs, Coupons,  \* bounds used only by Next (model checking)
+          Bigs,                \* subset of BOOLEAN: ghost representations explored by Next
           TrackFed             \* TRUE: keep the full coupon ghost also in HLL mode
 VARIABLE obj
 vars == <<obj>>
@@ -49,25 +50,41 @@ SlotOf(c, lgK) == c[1] % (2^lgK)
 SlotMax(S, lgK) == [s \in Slots(lgK) |-> MaxOf({c[2] : c \in {d \in S : SlotOf(d, lgK) = s}})]
 Zero(lgK) == [s \in Slots(lgK) |-> 0]
 
-Live == DOMAIN obj
-Fresh(lgK, type, full, m) ==
-  [lgK |-> lgK, type |-> type, full |-> full, mode |-> m, fed |-> {}, top |-> Zero(lgK), empty |-> TRUE]
+(* Sparse ghost (big = TRUE, used by trace specifications for lg_k > 16 where a dense register function of 2^lgK entries *)
+(* is unaffordable): the coupon set fed is kept in every mode, top is not maintained (<<>>), and the registers are the  *)
+(* declarative PairsOf(fed): the set of <<slot, value>> pairs of the non-zero slots.                                    *)
+PairsOf(S, lgK) == {<<s, MaxOf({c[2] : c \in {d \in S : SlotOf(d, lgK) = s}})>> : s \in {SlotOf(c, lgK) : c \in S}}
+\* near-linear test that a set L of <<slot, value>> pairs IS PairsOf(S, lgK): one pair per slot, every pair is attained by a
+\* coupon, every coupon is dominated by the pair of its slot (MC_Hll checks the equivalence)
+PairsMatch(L, S, lgK) ==
+  LET W == {<<SlotOf(c, lgK), c[2]>> : c \in S} IN
+  /\ Cardinality({p[1] : p \in L}) = Cardinality(L)
+  /\ \A p \in L : p \in W
+  /\ \A c \in S : \E v \in c[2]..63 : <<SlotOf(c, lgK), v>> \in L
 
+Live == DOMAIN obj
+Fresh(lgK, type, full, m, big) ==
+  [lgK |-> lgK, type |-> type, full |-> full, mode |-> m, fed |-> {}, top |-> IF big THEN <<>> ELSE Zero(lgK), empty |-> TRUE,
+   big |-> big]
+
+\* the non-zero registers as <<slot, value>> pairs
+NzPairs(o) == IF o.big THEN PairsOf(o.fed, o.lgK) ELSE {<<s, o.top[s]>> : s \in {x \in DOMAIN o.top : o.top[x] > 0}}
 \* the logical content the API must expose
-Content(o) == IF o.mode = HLL THEN o.top ELSE o.fed
-NonZero(o) == Cardinality({s \in DOMAIN o.top : o.top[s] > 0})
+Content(o) == IF o.mode # HLL THEN o.fed ELSE IF o.big THEN NzPairs(o) ELSE o.top
+NonZero(o) == IF o.big THEN Cardinality({SlotOf(c, o.lgK) : c \in o.fed}) ELSE Cardinality({s \in DOMAIN o.top : o.top[s] > 0})
+SlotVal(o, s) == IF o.big THEN MaxOf({c[2] : c \in {d \in o.fed : SlotOf(d, o.lgK) = s}}) ELSE o.top[s]
 \* admissible representation after a step
 ModeOK(o, m) == m \in Modes /\ (o.mode = HLL => m = HLL)
-Keep(m) == TrackFed \/ m # HLL
+Keep(o, m) == TrackFed \/ o.big \/ m # HLL
 
 Feed(o, c, m) ==
-  [o EXCEPT !.fed = IF Keep(m) THEN @ \cup {c} ELSE {},
-            !.top = [@ EXCEPT ![SlotOf(c, o.lgK)] = Max2(@, c[2])],
+  [o EXCEPT !.fed = IF Keep(o, m) THEN @ \cup {c} ELSE {},
+            !.top = IF o.big THEN @ ELSE [@ EXCEPT ![SlotOf(c, o.lgK)] = Max2(@, c[2])],
             !.empty = FALSE,
             !.mode = m]
 
 Init == obj = <<>>
-New(i, lgK, type, full, m) == obj' = (i :> Fresh(lgK, type, full, m)) @@ obj
+New(i, lgK, type, full, m, big) == obj' = (i :> Fresh(lgK, type, full, m, big)) @@ obj
 CouponUpdate(i, c, m) ==
   /\ i \in Live
   /\ ModeOK(obj[i], m)
@@ -85,8 +102,8 @@ FeedMany(i, cs, m) ==
   /\ ModeOK(obj[i], m)
   /\ cs # <<>>
   /\ LET o == obj[i]  K == 2^o.lgK IN
-     obj' = [obj EXCEPT ![i] = [o EXCEPT !.fed = IF Keep(m) THEN @ \cup {cs[n] : n \in DOMAIN cs} ELSE {},
-                                         !.top = FoldLeft(LAMBDA f, c : [f EXCEPT ![c[1] % K] = Max2(@, c[2])], @, cs),
+     obj' = [obj EXCEPT ![i] = [o EXCEPT !.fed = IF Keep(o, m) THEN @ \cup {cs[n] : n \in DOMAIN cs} ELSE {},
+                                         !.top = IF o.big THEN @ ELSE FoldLeft(LAMBDA f, c : [f EXCEPT ![c[1] % K] = Max2(@, c[2])], @, cs),
                                          !.empty = FALSE,
                                          !.mode = m]]
 \* update("") and update(nullptr, n) are ignored entirely
@@ -95,17 +112,17 @@ UpdateIgnored(i) == i \in Live /\ UNCHANGED obj
 ConvertCopy(i, j, t, m) ==
   /\ i \in Live /\ t \in Types
   /\ ModeOK(obj[i], m)
-  /\ obj' = (j :> [obj[i] EXCEPT !.type = t, !.mode = m, !.fed = IF Keep(m) THEN @ ELSE {}]) @@ obj
+  /\ obj' = (j :> [obj[i] EXCEPT !.type = t, !.mode = m, !.fed = IF Keep(obj[i], m) THEN @ ELSE {}]) @@ obj
 Copy(i, j) == i \in Live /\ obj' = (j :> obj[i]) @@ obj
 Reset(i, m) ==
   /\ i \in Live /\ m \in Modes
-  /\ obj' = [obj EXCEPT ![i] = Fresh(@.lgK, @.type, @.full, m)]
+  /\ obj' = [obj EXCEPT ![i] = Fresh(@.lgK, @.type, @.full, m, @.big)]
 \* an object rebuilt from a serialized image must be the value that was serialized (C09)
 Restore(j, st) == obj' = (j :> st) @@ obj
 Destroy(i) == i \in Live /\ obj' = [x \in Live \ {i} |-> obj[x]]
 
 Next == \E i \in Ids :
-          \/ \E lgK \in LgKs, t \in Types, full \in BOOLEAN, m \in Modes : New(i, lgK, t, full, m)
+          \/ \E lgK \in LgKs, t \in Types, full \in BOOLEAN, m \in Modes, big \in Bigs : New(i, lgK, t, full, m, big)
           \/ \E c \in Coupons, m \in Modes : CouponUpdate(i, c, m)
           \/ \E j \in Ids, c \in Coupons, m1, m2 \in Modes : i # j /\ UpdateAll(<<i, j>>, c, <<m1, m2>>)
           \/ \E c1, c2 \in Coupons, m \in Modes : FeedMany(i, <<c1, c2>>, m)
@@ -118,11 +135,14 @@ Spec == Init /\ [][Next]_vars
 
 \* invariants = the clauses of the property about the state
 Inv == \A i \in Live : LET o == obj[i] IN
-         /\ o.empty = (o.fed = {} /\ o.top = Zero(o.lgK))
-         /\ (TrackFed \/ o.mode # HLL) => o.top = SlotMax(o.fed, o.lgK)      \* content is a function of the input SET
-         /\ (~TrackFed /\ o.mode = HLL) => o.fed = {}
-\* objects with the same inputs and lgK have the same content whatever their type, mode history or lineage
+         /\ o.big => /\ o.top = <<>> /\ o.empty = (o.fed = {})
+                     /\ PairsMatch(PairsOf(o.fed, o.lgK), o.fed, o.lgK)        \* the near-linear test accepts the definition
+                     /\ \A c \in o.fed : ~PairsMatch(PairsOf(o.fed, o.lgK) \ {<<SlotOf(c, o.lgK), SlotVal(o, SlotOf(c, o.lgK))>>}, o.fed, o.lgK)
+         /\ ~o.big => /\ o.empty = (o.fed = {} /\ o.top = Zero(o.lgK))
+                      /\ (TrackFed \/ o.mode # HLL) => o.top = SlotMax(o.fed, o.lgK)      \* content is a function of the input SET
+                      /\ (~TrackFed /\ o.mode = HLL) => o.fed = {}
+\* objects with the same inputs and lgK have the same content whatever their type, mode history, lineage or ghost representation
 SameContent == \A i, j \in Live :
          (obj[i].lgK = obj[j].lgK /\ obj[i].fed = obj[j].fed /\ obj[i].mode = HLL /\ obj[j].mode = HLL)
-           => Content(obj[i]) = Content(obj[j])
+           => NzPairs(obj[i]) = NzPairs(obj[j])
 ====
